@@ -137,8 +137,13 @@ CaseResult body(Chooser& ch, Stats* st) {
         if (c1 != c2) { fail = "centers differ"; break; }
         int mask = (int)(salt % (1u << nd));
         if (!eqbits(ndsplineeval(&h[a], x.data(), c1.data(), mask), tw[a]->ndsplineeval(x.data(), c2.data(), mask))) { fail = "ndsplineeval differs"; break; }
-        std::vector<double> g1(nd + 1), g2(nd + 1); ndsplineeval_gradient(&h[a], x.data(), c1.data(), g1.data()); tw[a]->ndsplineeval_gradient(x.data(), c2.data(), g2.data());
-        for (uint32_t i = 0; i <= nd; i++) if (!eqbits(g1[i], g2[i])) fail = "gradient differs";
+        std::vector<double> g1(nd + 1, 12345.0), g2(nd + 1); ndsplineeval_gradient(&h[a], x.data(), c1.data(), g1.data());
+        bool grad_refused = false;
+        try { tw[a]->ndsplineeval_gradient(x.data(), c2.data(), g2.data()); } catch (std::exception&) { grad_refused = true; }
+        // the C function returns void: a gradient the C++ operation refuses (too many dimensions) must come back as
+        // NaN in every lane, not as an exception crossing the C boundary (which the harness reports as such)
+        if (grad_refused) { for (uint32_t i = 0; i <= nd; i++) if (!std::isnan(g1[i])) fail = "the C++ gradient is refused but the C wrapper returned a number in lane " + std::to_string(i); if (st) st->label("gradient_refused_by_dimension"); }
+        else for (uint32_t i = 0; i <= nd; i++) if (!eqbits(g1[i], g2[i])) fail = "gradient differs";
         std::vector<unsigned> dv(nd); for (uint32_t d = 0; d < nd; d++) dv[d] = (unsigned)(mix64(salt * 7 + d) % 3);
         if (!eqbits(ndsplineeval_deriv(&h[a], x.data(), c1.data(), dv.data()), tw[a]->ndsplineeval_deriv(x.data(), c2.data(), dv.data()))) fail = "ndsplineeval_deriv differs";
         break; }
